@@ -74,7 +74,43 @@ Fixpoint closedb (s : bytes) : bool :=
     end
   end.
 
-Definition redactableb (s : bytes) : bool := wf (lex s) && closedb s.
+(* ---- state-returning scanners (compositional under ++) ---- *)
+
+(* Envelope state after ts, None when the alternation is violated. *)
+Fixpoint wf_st (opn : bool) (ts : list tok) : option bool :=
+  match ts with
+  | [] => Some opn
+  | TS :: r => if opn then None else wf_st true r
+  | TE :: r => if opn then wf_st false r else None
+  | TB _ :: r => wf_st opn r
+  end.
+
+(* Partial-marker state of a byte suffix: 0 clean, 1 after E2, 2 after E2 80. *)
+Definition pnext (st b : N) : N :=
+  if b =? 226 then 1 else if (st =? 1) && (b =? 128) then 2 else 0.
+Definition pstb (st : N) (s : bytes) : N := fold_left pnext s st.
+
+Definition next_is_lf (r : list tok) : bool :=
+  match r with TB c :: _ => c =? LF | _ => false end.
+
+(* Marker-closedness: every marker is preceded by bytes that do not end with a
+   proper marker prefix, except an end marker directly followed by a line feed
+   (the one the line splitter inserts).  Returns the partial-marker state at
+   the end, None on violation. *)
+Fixpoint mcl_st (st : N) (ts : list tok) : option N :=
+  match ts with
+  | [] => Some st
+  | TB b :: r => mcl_st (pnext st b) r
+  | TS :: r => if st =? 0 then mcl_st 0 r else None
+  | TE :: r => if (st =? 0) || next_is_lf r then mcl_st 0 r else None
+  end.
+Definition mcl (ts : list tok) : bool :=
+  match mcl_st 0 ts with Some 0 => true | _ => false end.
+
+(* "Well-formed redactable string": strict alternation and marker-closedness.
+   Every string the library produces has it; raw (pre-redactable) input is
+   assumed to have it. *)
+Definition redactableb (s : bytes) : bool := wf (lex s) && mcl (lex s).
 Definition Redactable (s : bytes) : Prop := redactableb s = true.
 
 (* StripMarkers at token level. *)
